@@ -6,6 +6,7 @@ import random
 from harness import common, families, defects
 
 ID = "C10"
+CLI_SECOND_TIE = True
 PROPS = "theories/Props/C10.v"
 
 
@@ -50,7 +51,27 @@ def bases(tier, seed):
     return out
 
 
+def cli_tie(tier, seed, rep, replay):
+    """hand model of the pipeline vs observed runs of the real command line: every mode, a failure injected at the entry
+    of every stage (no generated file may exist when a stage is entered or after it raised)"""
+    from harness import clitrace
+    if replay is not None and "mode" not in replay["case"]:
+        return
+    if replay is not None:
+        descs = [(replay["case"]["desc"], {"replay": True})]
+    else:
+        bs = bases(tier, seed)
+        descs = [(d, dict(t, algo=d["routing"]["route_algo"])) for d, t in (bs[:2] if tier == "quick" else bs[:6])]
+    before = len(rep.fails) + len(rep.corr)
+    st = clitrace.run_tie(rep, ID, descs)
+    rep.coverage["cli_observed"] = st
+    rep.cli_tie_ok = (len(rep.fails) + len(rep.corr) == before) and st["runner_errors"] == 0 and st["observed_runs"] > 0
+
+
 def run(tier, seed, rep, replay=None):
+    cli_tie(tier, seed, rep, replay)
+    if replay is not None and "mode" in replay["case"]:
+        return
     cases = []
     if replay is not None:
         c = replay["case"]
